@@ -22,8 +22,20 @@ CHAR_LENS = ["10", "*", ":", "n", "2*n"]
 SIMPLE_ATTRS = ["allocatable", "pointer", "target", "save", "contiguous", "value", "asynchronous", "volatile"]
 DIMS = ["(3)", "(:)", "(:,:)", "(n)", "(0:n-1)", "(2,3)", "(*)"]
 INITS = {"integer": ["1", "42", "-3", "2*n"], "real": ["1.0", "0.5e0", "1.0_dp"], "logical": [".true.", ".false."],
-         "character": ["'abc'", "\"x y\"", "'it''s'", "'a, b'", "'(/ 1 /)'"], "complex": ["(1.0, 2.0)"],
+         "character": ["'abc'", "\"x y\"", "'it''s'", "'a, b'", "'(/ 1 /)'", "\"0\"", "\"1\"", "'0'", "\"12\"", "\"2\""],
+         "complex": ["(1.0, 2.0)"],
          "double precision": ["1.0d0"], "double complex": ["(1.0d0, 0.0d0)"]}
+# elements of character array constructors: one character each (equal lengths, as Fortran requires), either
+# delimiter, digits on purpose (FORD masks literals by `"0"`, `"1"`, ... while it parses a statement)
+CHAR_ELEMS = ["\"0\"", "\"1\"", "\"2\"", "'0'", "'1'", "\"a\"", "'b'", "\" \"", "''''", "\"3\""]
+
+
+def gen_array_init(rng, base, n=3):
+    """array constructor with n elements, `[a, b, c]` or `(/ a, b, c /)`"""
+    pool = CHAR_ELEMS if base == "character" else INITS[base]
+    els = [rng.choice(pool) for _ in range(n)]
+    o, c = rng.choice([("[", "]"), ("(/ ", " /)"), ("(/", "/)")])
+    return o + rng.choice([", ", ","]).join(els) + c
 
 
 class Namer:
@@ -113,6 +125,11 @@ def gen_var(rng, nm, types_visible, absints_visible, role="local"):
             v["parameter"], v["init"] = True, rng.choice(INITS[base])
         elif r < 0.4:
             v["init"] = rng.choice(INITS[base])
+    if not v["attrs"] and not v["parameter"] and base in INITS and v["dims"] == "(3)" and v["init"] is None \
+            and spec["len"] not in (":", "n", "2*n") and rng.random() < 0.35:
+        v["init"] = gen_array_init(rng, base)
+        if role == "modvar" and rng.random() < 0.5:
+            v["parameter"] = True
     if not v["attrs"] and role in ("modvar", "local") and not v["parameter"] and rng.random() < 0.2:
         v["attrs"].append(rng.choice(["save", "target"] + (["volatile", "asynchronous"] if role == "modvar" else [])))
     return v
@@ -514,9 +531,48 @@ class Out:
             self.lines.append(" " * self.ind + "! an ordinary comment; call nothing(); type :: t")
 
 
+def mergeable(a, b):
+    """two entities that one type declaration statement can declare together"""
+    return (a["type"] == b["type"] and a["attrs"] == b["attrs"] and a["intent"] == b["intent"]
+            and a["optional"] == b["optional"] and a["parameter"] == b["parameter"])
+
+
+def render_merged(S, vs):
+    """`type, attrs :: a(dims) = init, b = init, ...` (an equivalent spelling of the separate declarations)"""
+    rng = S.rng
+    v = vs[0]
+    inline = [S.kw(a) for a in v["attrs"]]
+    if v["intent"]:
+        inline.append(S.kw("intent") + S.sp() + "(" + S.kw(v["intent"]) + ")")
+    if v["optional"]:
+        inline.append(S.kw("optional"))
+    if v["parameter"]:
+        inline.append(S.kw("parameter"))
+    rng.shuffle(inline)
+    ents = []
+    for w in vs:
+        e = S.ident(w["name"]) + (w["dims"] or "")
+        if w["init"] is not None:
+            e += (" => " if w["points"] else rng.choice([" = ", "=", "  =  "])) + w["init"]
+        ents.append(e)
+    return (render_typespec(S, v["type"]) + "".join(S.sp() + "," + S.sp() + a for a in inline) + S.sp() + "::" + S.sp()
+            + rng.choice([", ", ",", " , "]).join(ents))
+
+
 def render_spec_vars(S, out, vars_, allow_separate=True):
     pending = []
-    for v in vars_:
+    vars_ = list(vars_)
+    i = 0
+    while i < len(vars_):
+        v = vars_[i]
+        i += 1
+        group = [v]
+        while i < len(vars_) and len(group) < 3 and mergeable(v, vars_[i]) and S.rng.random() < 0.4:
+            group.append(vars_[i])
+            i += 1
+        if len(group) > 1:
+            out.add(render_merged(S, group))
+            continue
         d, sep = render_decl(S, v, allow_separate)
         out.add(d)
         pending += sep
